@@ -280,6 +280,20 @@ func (m *Machine) allTags() []string {
 	return out
 }
 
+// unwindTags: every property for which the function under verification has obligations.
+func (m *Machine) unwindTags() []string {
+	set := map[string]bool{"C06": true, "C10": true, "C11": true}
+	for _, t := range m.allTags() {
+		set[t] = true
+	}
+	var out []string
+	for k := range set {
+		out = append(out, k)
+	}
+	sort.Strings(out)
+	return out
+}
+
 func (m *Machine) resultBindings(fn *ssa.Function, sig *types.Signature, rets []Value, bind map[string]Value) {
 	if sig.Results().Len() == 1 {
 		bind["result"] = rets[0]
@@ -1021,7 +1035,7 @@ func (m *Machine) enterLoopHeader(st *State, fr *Frame, from, header *ssa.BasicB
 		}
 		fr.loopHit[header.Index]++
 		if fr.loopHit[header.Index] > defaultUnroll+1 {
-			m.recordObl(st, fr, "unwinddefault", fmt.Sprintf("loop%d", ord), m.ctx.F, m.safeTagsFor(fr.fn),
+			m.recordObl(st, fr, "unwinddefault", fmt.Sprintf("loop%d", ord), m.ctx.F, m.unwindTags(),
 				fmt.Sprintf("loop %d of the uncontracted helper %s runs at most %d iterations (default unrolling; undecided if not)", ord, relName(fr.fn), defaultUnroll), false)
 			st.dead = true
 			return false
@@ -1034,7 +1048,8 @@ func (m *Machine) enterLoopHeader(st *State, fr *Frame, from, header *ssa.BasicB
 		}
 		fr.loopHit[header.Index]++
 		if fr.loopHit[header.Index] > spec.Unroll+1 {
-			m.oblige(st, fr, "unwind", fmt.Sprintf("loop%d", ord), m.ctx.F, m.safeTagsFor(fr.fn), fmt.Sprintf("loop %d needs at most %d iterations (unwinding assertion)", ord, spec.Unroll))
+			// paths beyond the bound are cut for every property's proof: the assertion belongs to all of them
+			m.oblige(st, fr, "unwind", fmt.Sprintf("loop%d", ord), m.ctx.F, m.unwindTags(), fmt.Sprintf("loop %d needs at most %d iterations (unwinding assertion)", ord, spec.Unroll))
 			st.dead = true
 			return false
 		}
